@@ -13,8 +13,8 @@ def classify_membership(e, mvar_ok, libname):
     Returns 'exact' | 'bare-prefix' | 'substring' | None (unknown)."""
     if isinstance(e, ast.BoolOp) and isinstance(e.op, ast.Or):
         kinds = [classify_membership(v, mvar_ok, libname) for v in e.values]
-        if any(k in ("bare-prefix", "substring") for k in kinds):
-            return [k for k in kinds if k in ("bare-prefix", "substring")][0]
+        if any(k in ("bare-prefix", "substring", "zip-truncated") for k in kinds):
+            return [k for k in kinds if k in ("bare-prefix", "substring", "zip-truncated")][0]
         if all(k == "exact" for k in kinds):
             return "exact"
         return None
@@ -41,6 +41,25 @@ def classify_membership(e, mvar_ok, libname):
             s = ast.unparse(e).replace(" ", "")
             if ".split('.')[:" in s and "==%s.split('.')" % libname in s:
                 return "exact"
+    # all(a == b for a, b in zip(module.split("."), lib.split("."))): zip stops at the shorter path, so every ancestor
+    # package of the requested library matches too (unless the lengths are compared as well)
+    if isinstance(e, ast.Call) and isinstance(e.func, ast.Name) and e.func.id == "all" and e.args and isinstance(e.args[0], (ast.GeneratorExp, ast.ListComp)):
+        g0 = e.args[0].generators[0]
+        it = g0.iter
+        if isinstance(it, ast.Call) and isinstance(it.func, ast.Name) and it.func.id == "zip" and len(it.args) == 2:
+            def split_of(x):
+                return x.func.value if isinstance(x, ast.Call) and isinstance(x.func, ast.Attribute) and x.func.attr == "split" and x.args and isinstance(x.args[0], ast.Constant) and x.args[0].value == "." else None
+            a, b = split_of(it.args[0]), split_of(it.args[1])
+            if a is not None and b is not None and ((is_mod(a) and is_lib(b)) or (is_lib(a) and is_mod(b))):
+                elt = e.args[0].elt
+                if isinstance(elt, ast.Compare) and len(elt.ops) == 1 and isinstance(elt.ops[0], ast.Eq):
+                    return "zip-truncated"
+    if isinstance(e, ast.BoolOp) and isinstance(e.op, ast.And):
+        kinds = [classify_membership(v, mvar_ok, libname) for v in e.values]
+        if "zip-truncated" in kinds and any(isinstance(v, ast.Compare) and "len(" in ast.unparse(v) for v in e.values):
+            return None  # a length test accompanies the part-wise comparison: not decided here
+        if "zip-truncated" in kinds:
+            return "zip-truncated"
     if isinstance(e, ast.Call) and isinstance(e.func, ast.Attribute) and e.func.attr == "startswith" and len(e.args) == 1:
         recv, arg = e.func.value, e.args[0]
         if is_mod(recv) and is_lib_dot(arg):
@@ -156,8 +175,28 @@ def run(ctx, idx):
         elif verdict in ("bare-prefix", "substring"):
             ctx.violate("C19.a", con, K.rel(init), comp.lineno,
                         "`%s` is a %s test: requesting library `mylib` also selects the commands of `mylib2` / `mylib_extra`" % (K.src(inner), "bare prefix" if verdict == "bare-prefix" else "substring"))
+        elif verdict == "zip-truncated":
+            ctx.violate("C19.a", con, K.rel(init), comp.lineno,
+                        "`%s` compares the dotted paths part by part over zip(), which stops at the shorter one: requesting `pkg.sub` also selects the commands defined in `pkg` itself (every ancestor package matches)" % K.src(inner)[:90])
         else:
             raise AnalysisError("C19.a: membership predicate `%s` is outside the recognised forms" % K.src(cond))
+    # the loader executes what the filter admits: every module below a requested package
+    lc = prog.methods.get("load_commands")
+    if lc is None:
+        raise AnalysisError("Program.load_commands vanished")
+    walkers = [(n, idx.qualname(lc.module, n.func, lc) or "") for n in own_nodes(lc.node) if isinstance(n, ast.Call) and (idx.qualname(lc.module, n.func, lc) or "").startswith("pkgutil.")]
+    con = "%s::loads-what-the-filter-admits" % lc.key
+    if not walkers:
+        raise AnalysisError("C19.a: load_commands no longer walks the library package with pkgutil")
+    for n, q in walkers:
+        rec = q == "pkgutil.walk_packages"
+        if not rec:
+            # a listing of direct children is complete when the loop recurses into each child
+            for lp in [x for x in own_nodes(lc.node) if isinstance(x, ast.For) and any(n is y for y in ast.walk(x.iter))]:
+                if any(isinstance(c, ast.Call) and isinstance(c.func, ast.Attribute) and c.func.attr == "load_commands" for st in lp.body for c in ast.walk(st)):
+                    rec = True
+        ctx.ob("C19.a", con, K.rel(lc), n.lineno, rec, "the whole package tree is walked (walk_packages), matching the `lib.` prefix of the selection" if rec else
+               "%s lists only the direct children of the package, while the selection admits every module under `lib.`: commands of a nested sub-package are offered only if some earlier program happened to load them" % q)
     # ---- b
     cfg = K.cfg_of(idx, init)
     stores = cfg.find("store", lambda n: n.meta.get("attr") == "command_library" and self_attr(n.ast, sn))
